@@ -92,6 +92,19 @@ def trace_binding():
     a, _ = tracecheck.validate(ck, 'Roots_Trace', 'Roots_Trace.cfg', None, good)
     b, _ = tracecheck.validate(ck, 'Roots_Trace', 'Roots_Trace.cfg', None, bad)
     out.append(('Roots_Trace', len(a) == 1 and len(b) == 0, 'accepted %d/1 good survivor mask, %d/1 mask that lost the simple root' % (len(a), len(b))))
+    # --- Subdiv.tla vs the real subdivision loop: exact conformance, lost when the box test of the code is changed behind the model's back
+    from . import subdivmodel as sd
+    r = tlcmod.run_tlc('Subdiv', sd.CFG % (6, 1, 6, 'code', 'Lat2', 'same', 'InputsAnchored', 'INVARIANT Dump\n'), workers=1, coverage=False)
+    cases = r.cases[::7]
+    good = sum(1 for c in cases if sd.compare(ck, c, 1, 6, 'same'))
+    orig = sd.bz.interval_intersection_width
+    sd.bz.interval_intersection_width = lambda a, b, c, d: 1 if max(a, c) <= min(b, d) else 0        # closed boxes
+    try:
+        still = sum(1 for c in cases if sd.compare(ck, c, 1, 6, 'same'))
+    finally:
+        sd.bz.interval_intersection_width = orig
+    out.append(('Subdiv (behaviours)', good == len(cases) and still < len(cases),
+                '%d/%d behaviours of the model equal the real loop visit by visit; %d still do when boxes_intersect is made closed in the code only' % (good, len(cases), still)))
     return out
 
 
